@@ -1,3 +1,125 @@
-From CM Require Import Issuance.Model.
-Theorem placeholder_c01 : True. Proof. exact I. Qed.
-Print Assumptions placeholder_c01.
+(** C01 -- Certificate orders for a name are serialized and never repeated cluster-wide.
+    Statements over the Issuance LTS (any number of threads, every schedule, every fault plan);
+    proofs in Issuance/*.v.  Each theorem is followed by [Print Assumptions]. *)
+From Coq Require Import List Bool Arith Lia.
+From CM Require Import Issuance.Model Issuance.Proofs Issuance.Invariants Issuance.OwnFault
+  Issuance.NoReissueTL Issuance.NoReissue Issuance.Refuted.
+Import ListNotations.
+
+(** invariant behind F1: a request inside the locked region (re-check ... deferred release) owns
+    its lock key in the lock table -- every reachable state, every fault plan *)
+Theorem C01_lock_protects_region : forall cs st s, reachable cs st s ->
+  forall t th, thread_at s t th -> locked (tpc th) = true -> lks (sh s) (c_lk (cfg th)) = Some t.
+Proof. intros cs st s Hr. exact (I_lock_reachable cs st s Hr). Qed.
+Print Assumptions C01_lock_protects_region.
+
+(** F1 (partial with respect to "in any spelling": hypothesis [agree_on_lock]): if the requests
+    for one identifier agree on the lock key, at most one of them is between the entry and the
+    exit of Issuer.Issue, in every reachable state of every thread set, schedule and fault plan *)
+Theorem C01_issue_spans_disjoint_partial : forall cs st s t1 t2 th1 th2,
+  agree_on_lock cs -> reachable cs st s ->
+  thread_at s t1 th1 -> thread_at s t2 th2 ->
+  in_span th1 = true -> in_span th2 = true -> c_idn (cfg th1) = c_idn (cfg th2) -> t1 = t2.
+Proof. exact issue_spans_disjoint. Qed.
+Print Assumptions C01_issue_spans_disjoint_partial.
+
+(** R: without the hypothesis the statement is false of the faithful model: Unicode and
+    punycode spellings of one name take different locks *)
+Theorem C01_issue_spans_disjoint_refuted_spelling :
+  exists cs st s t1 t2 th1 th2,
+    reachable cs st s /\ thread_at s t1 th1 /\ thread_at s t2 th2 /\
+    in_span th1 = true /\ in_span th2 = true /\ c_idn (cfg th1) = c_idn (cfg th2) /\ t1 <> t2.
+Proof. exact issue_spans_disjoint_refuted_spelling. Qed.
+Print Assumptions C01_issue_spans_disjoint_refuted_spelling.
+
+(** F2 (partial: canonical spellings [canon0], existence checks not falsified [truthful]): once a
+    run contains a completed save (Store of the metadata, the last of the three) of a
+    certificate that is not due, then along every continuation -- any schedule, any faults other
+    than on Exists calls -- no request that touches that storage name enters the issuer, and
+    storage keeps exactly that certificate with its key and metadata *)
+Theorem C01_no_reissue_after_save_partial : forall cs st n L s l s1 t th es s2,
+  canon0 n L cs -> reachable cs st s ->
+  step s l = Some (s1, Ev t (OStore (SK n KMeta)) 0) ->
+  thread_at s t th -> cert_prog (cfg th) -> c_issdue (cfg th) = false ->
+  runs (truthful n) s1 es s2 ->
+  exists ce, nc th = Some ce /\ c_due ce = false /\
+    sto (sh s2) (SK n KCrt) = Some (VCrt ce) /\ sto (sh s2) (SK n KKey) <> None /\ sto (sh s2) (SK n KMeta) <> None /\
+    Forall (fun e => forall i, e_op e = OIssS i -> forall c, nth_error cs (e_tid e) = Some c -> ~ touches n c) es.
+Proof. exact no_reissue_after_save. Qed.
+Print Assumptions C01_no_reissue_after_save_partial.
+
+(** R: with a Unicode spelling the pre-check looks under Safe(name) while the save went under the
+    punycode name: the second ObtainCertSync issues again, without any fault *)
+Theorem C01_no_reissue_refuted_spelling :
+  exists cs st ls s es t c,
+    run (init_state cs st) ls = Some (s, es) /\
+    Forall (fun l => l_fault l = FNone) ls /\
+    nth_error cs t = Some c /\ c_force c = false /\
+    exists n i j,
+      nth_error es i = Some (Ev 0 (OStore (SK n KMeta)) 0) /\ nth_error es j = Some (Ev t (OIssS (c_idn c)) 0) /\
+      i < j /\ c_vk c = n.
+Proof. exact no_reissue_refuted_spelling. Qed.
+Print Assumptions C01_no_reissue_refuted_spelling.
+
+(** F4a: as long as no Unlock call itself fails, every reachable state with an unfinished
+    request has a step that needs no fault (a waiter is blocked only while a live holder can move) *)
+Theorem C01_deadlock_free : forall cs st es s,
+  runs unlock_ok (init_state cs st) es s ->
+  (exists t th, thread_at s t th /\ final_pc (tpc th) = false) ->
+  exists l s' e, l_fault l = FNone /\ step s l = Some (s', e).
+Proof. exact deadlock_free. Qed.
+Print Assumptions C01_deadlock_free.
+
+(** F4b: every run of programs without a retry loop (sync obtain / renew, ManageSync, ARI update)
+    is finite, whatever the schedule and the faults: at most 180 steps per request *)
+Theorem C01_sync_runs_bounded : forall cs st es s,
+  (forall c, In c cs -> finite_prog c = true) ->
+  runs any_label (init_state cs st) es s -> length es <= 180 * length cs.
+Proof. exact finite_runs_bounded. Qed.
+Print Assumptions C01_sync_runs_bounded.
+
+(** F4c for obtain (sync and async), full: whatever the other requests do and however they fail,
+    a request to obtain returns an error (or panics) only if a fault was injected into one of its
+    own operations -- a leader's failure is never the cause of a waiting obtain's error *)
+Theorem C01_obtain_fails_only_by_own_fault : forall cs st s t th a r,
+  reachable cs st s -> thread_at s t th -> c_prog (cfg th) = PObtain a ->
+  tpc th = PDone r -> r <> ROk -> flt th = true.
+Proof. exact obtain_fails_only_by_own_fault. Qed.
+Print Assumptions C01_obtain_fails_only_by_own_fault.
+
+(** R: for ManageSync the same statement is false: its first load runs outside the issue lock *)
+Theorem C01_manage_load_races_renew_save_refuted :
+  exists cs st ls s es th,
+    run (init_state cs st) ls = Some (s, es) /\ Forall (fun l => l_fault l = FNone) ls /\
+    (forall c, In c cs -> on_key 0 0 c) /\
+    thread_at s 1 th /\ c_prog (cfg th) = PManage /\ tpc th = PDone RErr /\ flt th = false.
+Proof. exact manage_load_races_renew_save_refuted. Qed.
+Print Assumptions C01_manage_load_races_renew_save_refuted.
+
+(** R: and for a waiting renewal when the leader's save hits a storage fault (storeTx's rollback
+    deletes the new key after the old one was overwritten) *)
+Theorem C01_takeover_refuted_save_fault :
+  exists cs st ls s es th,
+    run (init_state cs st) ls = Some (s, es) /\
+    (forall c, In c cs -> on_key 0 0 c) /\
+    thread_at s 1 th /\ tpc th = PDone RErr /\ flt th = false.
+Proof. exact takeover_refuted_save_fault. Qed.
+Print Assumptions C01_takeover_refuted_save_fault.
+
+(** the hypotheses are satisfiable by non-trivial reachable states: two ManageSync callers with the
+    canonical spelling, the first inside the issuer, the second waiting for the lock *)
+Example C01_hypotheses_nontrivial :
+  let cs := [manage_canon; manage_canon] in
+  agree_on_lock cs /\ canon0 0 0 cs /\
+  exists s th1 th2, reachable cs no_sto s /\ thread_at s 0 th1 /\ thread_at s 1 th2 /\
+    in_span th1 = true /\ tpc th2 = PLockWait.
+Proof.
+  simpl. split; [|split].
+  - intros c1 c2 [<-|[<-|[]]] [<-|[<-|[]]] _; reflexivity.
+  - intros c [<-|[<-|[]]] _; unfold on_key, cert_prog, force_eff; simpl; auto.
+  - destruct (run (init_state [manage_canon; manage_canon] no_sto) (sched (rep 7 0 ++ rep 3 1))) as [[s es]|] eqn:R;
+      [|vm_compute in R; discriminate].
+    exists s. assert (Hr : reachable [manage_canon; manage_canon] no_sto s) by (eapply reachable_run; eauto).
+    vm_compute in R. inversion R; subst s es; clear R.
+    do 2 eexists. split; [exact Hr|]. unfold thread_at; simpl. split; [reflexivity|]. split; [reflexivity|]. auto.
+Qed.
